@@ -477,10 +477,20 @@ template <class E> static void family_import_reuse(E &e, long &kc, size_t n) {
 			                  J().kv("n", (ll)n).raw("first_vector", vec_json(first)).raw("second_vector", vec_json(second)).kv("first_text", shorten(t1, 300)).kv("second_text", shorten(t2, 300)).kv("size_after", (ll)obj.size()).raw("index_component_after", vec_json(index_of(obj))).str());
 			if (sample.empty()) sample = J().kv("enc", enc).kv("src", "import into used object").raw("first_vector", vec_json(first)).raw("second_vector", vec_json(second)).kv("second_accepted", a2).kv("size_after", (ll)obj.size()).str();
 		}
-		// recorded, not judged: does a second successful import replace or append?
+		// a second import of another bijection must leave exactly that secret in the object
 		{
-			TMCG_StackSecret<typename E::Secret> obj; std::string t1 = join_sts(text_of(first), B.cs);
-			if (obj.import(t1) && obj.import(t1)) count(obj.size() == n ? "observed_second_import_replaces" : "observed_second_import_appends");
+			std::vector<size_t> second(first.rbegin(), first.rend());
+			TMCG_StackSecret<typename E::Secret> obj; std::string t1 = join_sts(text_of(first), B.cs), t2 = join_sts(text_of(second), B.cs);
+			bool a1 = accepted([&] { return obj.import(t1); }), a2 = a1 && accepted([&] { return obj.import(t2); });
+			tried++; count("imports_into_used_object");
+			if (a1 && !a2) violation("C02/import-into-used-object/refused-bijection/" + enc, "import() into a used object refused a stack secret whose index vector is a bijection", J().kv("second_text", shorten(t2, 300)).str());
+			if (a2) {
+				std::ostringstream o; o << obj;
+				if (index_of(obj) != second || o.str() != t2)
+					violation("C02/import-into-used-object/altered-secret/" + enc, "after an accepted import into a used object the object does not hold the index vector / card secrets of the imported text",
+					          J().kv("n", (ll)n).raw("first_vector", vec_json(first)).raw("second_vector", vec_json(second)).kv("size_after", (ll)obj.size()).raw("index_component_after", vec_json(index_of(obj))).str());
+				count(obj.size() == n ? "observed_second_import_replaces" : "observed_second_import_appends");
+			}
 		}
 	}
 	tl_rng = nullptr;
